@@ -4,8 +4,9 @@ import NbioVerif.DrvCommon
 /-!
 wscbdrv — runs the C14 models on the op lines of `hwscb`.
 
-* `C … cb`  : WsCb (receive steps ∘ JobQ). The harness holds every callback at a gate; `cb` releases the held one
-  (= the model's `run`, followed by the drainer's `next`).
+* `C … cb`  : WsCb (receive steps ∘ ExecQ). The harness holds every callback at a gate; `cb` releases the held one
+  (= `finish` and `next` of the drainer); `cbSettle` applies what then happens by itself (spawn, start, non-callback
+  jobs). With `holdexec=1` the executor holds the upgrade request's closure until `go`.
 * `C … wq …`: SendQ in queued mode; `send ok` = the drainer's conn write returns nil, followed by its `advance`.
 * `C … wd …`: SendQ in direct mode; `par … order=…` = the calls' critical sections in the observed order.
 * `C … e2e …`: summary of a real-socket run: the expected callback log and number of whole groups.
@@ -16,6 +17,7 @@ inductive Mode | none | cb | wq | wd | e2e
 
 structure DS where
   mode : Mode
+  holdExec : Bool := false     -- the executor holds the first closure (the upgrade request's drainer) until `go`
   cb : WsCb.St
   g : SendQ.Cfg
   sq : SendQ.St
@@ -27,12 +29,29 @@ structure DS where
 def cbName (j : Nat) : String :=
   if j == WsCb.jobOpen then "open" else if j == WsCb.jobClose then "close" else s!"m{j - 2}"
 
+/-- the callback currently held at the harness's gate: the running job, if it is a WebSocket callback -/
+def heldCb (s : WsCb.St) : Option Nat :=
+  match ExecQ.runningJobs s.q with
+  | j :: _ => if WsCb.isCallback s j then some j else none
+  | [] => none
+
 def cbLine (s : WsCb.St) : String :=
-  let log := String.intercalate "," (s.q.ran.map cbName)
-  let running := match s.q.drainer with
-    | some false => (s.q.list[s.q.idx]?.map cbName).getD "-"
-    | _ => "-"
+  let log := String.intercalate "," ((WsCb.callbacks s).map cbName)
+  let running := ((heldCb s).map cbName).getD "-"
   s!"R log={log} run={running}"
+
+/-- what happens by itself between two harness ops: the executor starts a spawned drainer closure (unless the harness
+    holds it), a ready drainer enters its job, and a job that is not a WebSocket callback (the upgrade job of a failed
+    upgrade, its close job) runs to completion without stopping at a gate -/
+def cbSettle (hold : Bool) : Nat → WsCb.St → WsCb.St
+  | 0, s => s
+  | fuel + 1, s =>
+    let s1 := if hold then s else WsCb.run s [.q (.spawn 0 false)]
+    let s2 := WsCb.run s1 [.q (.start 0)]
+    let s3 := match ExecQ.runningJobs s2.q with
+      | j :: _ => if WsCb.isCallback s2 j then s2 else WsCb.run s2 [.q (.finish 0 false), .q (.next 0 false)]
+      | [] => s2
+    if s3.q.log.length == s.q.log.length && s3.q.drs == s.q.drs then s3 else cbSettle hold fuel s3
 
 def nfrag (n maxf : Nat) : Nat := if n == 0 then 1 else (n + maxf - 1) / maxf
 
@@ -54,20 +73,28 @@ partial def loop (h : IO.FS.Stream) (d : DS) : IO Unit := do
     let mode := if kind == "cb" then Mode.cb else if kind == "wq" then .wq else if kind == "wd" then .wd
                 else if kind == "e2e" then .e2e else .none
     let g : SendQ.Cfg := { queued := kind == "wq", bound := num "bound", reserve := (Drv.field ws "tree").getD "fixed" != "pinned" }
-    loop h { mode, cb := WsCb.init, g, sq := SendQ.init, maxf := num "maxframe", gids := [], lens := [], nextGid := 0 }
+    loop h { mode, holdExec := num "holdexec" == 1, cb := WsCb.init, g, sq := SendQ.init, maxf := num "maxframe", gids := [], lens := [], nextGid := 0 }
   | _ =>
   match d.mode, ws with
   | .cb, ["O", "upgrade"] =>
-    let s := WsCb.run d.cb [.upgrade]; IO.println (cbLine s); loop h { d with cb := s }
+    let s := cbSettle d.holdExec 8 (WsCb.run d.cb [.upgrade]); IO.println (cbLine s); loop h { d with cb := s }
+  | .cb, ["O", "go"] =>
+    let s := cbSettle false 8 d.cb; IO.println (cbLine s); loop h { d with cb := s, holdExec := false }
   | .cb, ["O", "recv"] =>
-    let s := WsCb.run d.cb [.recv]; IO.println (cbLine s); loop h { d with cb := s }
+    let s := cbSettle d.holdExec 8 (WsCb.run d.cb [.recv]); IO.println (cbLine s); loop h { d with cb := s }
   | .cb, ["O", "flip"] =>
-    let s := WsCb.run d.cb [.flip, .notify]; IO.println (cbLine s); loop h { d with cb := s }
+    let s := cbSettle d.holdExec 8 (WsCb.run d.cb [.flip, .notify]); IO.println (cbLine s); loop h { d with cb := s }
   | .cb, ["O", "cb"] =>
-    let s := WsCb.run d.cb [.run, .next]; IO.println (cbLine s); loop h { d with cb := s }
+    let s := match heldCb d.cb with
+      | some _ => WsCb.run d.cb [.q (.finish 0 false), .q (.next 0 false)]
+      | none => d.cb
+    let s := cbSettle d.holdExec 8 s
+    IO.println (cbLine s); loop h { d with cb := s }
   | .cb, ["Q"] => IO.println (cbLine d.cb); loop h d
-  | .wq, ["O", "write", len] =>
-    let n := nfrag len.toNat! d.maxf
+  | .wq, "O" :: "write" :: len :: rest =>
+    -- `frags=` (compressed messages): the fragment count is the implementation's (queued frames of an accepted call,
+    -- an estimate for a refused one); without it the count follows from the length
+    let n := ((Drv.field rest "frags").map String.toNat!).getD (nfrag len.toNat! d.maxf)
     let before := d.sq
     let d := sqRun d [.write n none]
     let ret := if d.sq.okCalls.length > before.okCalls.length then "ok"
@@ -124,14 +151,20 @@ partial def loop (h : IO.FS.Stream) (d : DS) : IO Unit := do
     loop h { d with nextGid := first + lens.length }
   | .wd, ["Q"] => IO.println s!"R wire={wireStr d}"; loop h d
   | .e2e, "O" :: "run" :: rest =>
+    if (Drv.field rest "skip") == some "1" then do
+      -- the harness's client ran into its own deadline on an overloaded machine: nothing is claimed for this case
+      IO.println "R skipped"
+      loop h d
+    else
     let msgs := ((Drv.field rest "msgs").map String.toNat!).getD 0
     let writers := ((Drv.field rest "writers").map String.toNat!).getD 0
     let size := ((Drv.field rest "size").map String.toNat!).getD 0
     -- callbacks: upgrade, all messages, close; every job drained
-    let acts : List WsCb.Act := [.upgrade] ++ List.replicate msgs .recv ++ [.flip, .notify] ++
-      (List.replicate (msgs + 2) [WsCb.Act.run, .next]).flatten
+    let drain : List WsCb.Act := [.q (.spawn 0 false), .q (.start 0), .q (.finish 0 false), .q (.next 0 false)]
+    let acts : List WsCb.Act := [.upgrade, .q (.spawn 0 false), .q (.start 0)] ++ List.replicate msgs .recv ++
+      [.flip, .notify] ++ (List.replicate (msgs + 3) drain).flatten
     let s := WsCb.run WsCb.init acts
-    let log := String.intercalate "," (s.q.ran.map cbName)
+    let log := String.intercalate "," ((WsCb.callbacks s).map cbName)
     -- writers: all calls accepted, all groups whole (any order)
     let g : SendQ.Cfg := { queued := false, bound := 0, reserve := true }
     let sq := SendQ.run g SendQ.init (List.replicate writers (.write (nfrag size 32768) none))
